@@ -345,3 +345,208 @@ Lemma heads_cache_example :
   | _ => False
   end.
 Proof. vm_compute. repeat split. Qed.
+
+(* ---- (2) any number of restarts between requests ---- *)
+Lemma max_key_le {V} (l : list (N * V)) b : forall a, a <= b -> (forall kv, In kv l -> fst kv <= b) ->
+  fold_left (fun a kv => N.max a (fst kv)) l a <= b.
+Proof.
+  induction l as [|kv r IH]; intros a Ha H; cbn [fold_left]; [exact Ha|].
+  apply IH; [|intros; apply H; now right]. specialize (H kv (or_introl eq_refl)). lia.
+Qed.
+
+Lemma version_live_lt repos rid vid iid v :
+  forallb (fun ib => repo_fresh rid vid iid ib) repos = true -> version_live repos v = true -> v < vid.
+Proof.
+  intros Hf Hl. unfold version_live in Hl. apply existsb_exists in Hl as (ib & Hib & Hv).
+  apply existsb_exists in Hv as (x & Hx & Hvx). apply N.eqb_eq in Hvx. subst x.
+  rewrite forallb_forall in Hf. specialize (Hf ib Hib). unfold repo_fresh in Hf.
+  rewrite !andb_true_iff in Hf. destruct Hf as [[_ Hvs] _]. unfold all_lt in Hvs.
+  rewrite forallb_forall in Hvs. apply N.ltb_lt. now apply Hvs.
+Qed.
+
+(* start-up does not move the id counters of a well-formed image *)
+Lemma recover_core C img rid vid iid mr wr : img_ok img = true -> i_ids img = Some (rid, vid, iid) ->
+  c_inst_start C <= iid -> recover C img = Ok (mr, wr) ->
+  m_rid mr = rid /\ m_vid mr = vid /\ m_iid mr = iid.
+Proof.
+  intros Hok Eids Hc Hr. unfold img_ok in Hok. rewrite Eids in Hok.
+  rewrite !andb_true_iff in Hok. destruct Hok as [[Hrepos _] _].
+  unfold recover in Hr.
+  assert (Hnm : no_metadata img = false).
+  { unfold no_metadata. rewrite Eids. destruct (i_r2u img), (i_v2u img); reflexivity. }
+  rewrite Hnm, Eids in Hr.
+  destruct (1 <? match i_fmt img with Some f => f | None => 0 end); [discriminate|].
+  destruct (negb _); [discriminate|].
+  apply Ok_inj in Hr. injection Hr as Hm _. subst mr. cbn [m_rid m_vid m_iid].
+  split; [reflexivity|]. split.
+  - match goal with |- (if vid <? ?mx then _ else _) = _ => assert (Hmx : mx <= vid) end.
+    { unfold max_key. apply max_key_le; [lia|]. intros kv Hin. apply filter_In in Hin as [_ Hlive].
+      apply N.lt_le_incl. apply (version_live_lt (i_repos img) rid vid iid); [|exact Hlive].
+      apply forallb_forall. intros ib Hib. rewrite forallb_forall in Hrepos. specialize (Hrepos ib Hib).
+      apply andb_true_iff in Hrepos. exact (proj2 Hrepos). }
+    apply N.ltb_ge in Hmx. now rewrite Hmx.
+  - apply N.ltb_ge in Hc. now rewrite Hc.
+Qed.
+
+Lemma mcore_step C m1 m2 o : mcore m1 = mcore m2 ->
+  mcore (fst (pstep_v C m1 o)) = mcore (fst (pstep_v C m2 o)).
+Proof.
+  unfold mcore. intro H.
+  assert (Hr : m_repos m1 = m_repos m2) by congruence. assert (Hi : m_rid m1 = m_rid m2) by congruence.
+  assert (Hv : m_vid m1 = m_vid m2) by congruence. assert (Hd : m_iid m1 = m_iid m2) by congruence. clear H.
+  destruct o; cbn [pstep_v pstep].
+  - unfold op_new_repo, new_uuid. cbn [fst snd m_repos m_rid m_vid m_iid]. now rewrite ?Hr, ?Hi, ?Hv, ?Hd.
+  - unfold op_new_version. rewrite Hr. destruct (aget rid (m_repos m2)) as [r|]; [|cbn; congruence].
+    destruct (aget parent (pr_nodes r)) as [pn|]; [|cbn; congruence].
+    destruct (negb (pn_locked pn)); [cbn; congruence|].
+    match goal with |- context [if ?c then (m1, []) else _] => destruct c end; [cbn; congruence|].
+    unfold new_uuid. cbn [fst snd set_head upd_repo m_repos m_rid m_vid m_iid]. now rewrite ?Hr, ?Hi, ?Hv, ?Hd.
+  - unfold op_merge_v, merge_valid. rewrite Hr.
+    destruct parents as [|p0 [|p1 ps]]; [cbn; congruence|cbn; congruence|].
+    destruct (aget rid (m_repos m2)) as [r|] eqn:Er; [|cbn; congruence].
+    match goal with |- context [if ?c then _ else _] => destruct c end; [|cbn; congruence].
+    unfold op_merge. rewrite Hr, Er. unfold new_uuid. cbn [fst snd]. rewrite Hv.
+    destruct (link_parents _ (m_vid m2) (p0 :: p1 :: ps)) as [ns ok].
+    destruct ok; cbn [fst upd_repo m_repos m_rid m_vid m_iid]; now rewrite ?Hr, ?Hi, ?Hv, ?Hd.
+  - unfold op_commit. rewrite Hr. destruct (aget rid (m_repos m2)) as [r|]; [|cbn; congruence].
+    destruct (aget v (pr_nodes r)) as [n|]; [|cbn; congruence].
+    destruct (pn_locked n); [cbn; congruence|]. cbn [fst upd_repo m_repos m_rid m_vid m_iid]. now rewrite ?Hr, ?Hi, ?Hv, ?Hd.
+  - unfold op_new_data. rewrite Hr, Hd. destruct (aget rid (m_repos m2)) as [r|].
+    + destruct (amem name (pr_data r)); cbn [fst upd_repo m_repos m_rid m_vid m_iid]; now rewrite ?Hr, ?Hi, ?Hv, ?Hd.
+    + cbn [fst m_repos m_rid m_vid m_iid]. now rewrite ?Hr, ?Hi, ?Hv, ?Hd.
+  - unfold op_delete_data. rewrite Hr. destruct (aget rid (m_repos m2)) as [r|]; [|cbn; congruence].
+    destruct (negb (amem name (pr_data r))); [cbn; congruence|]. cbn [fst upd_repo m_repos m_rid m_vid m_iid]. now rewrite ?Hr, ?Hi, ?Hv, ?Hd.
+  - unfold op_delete_repo. rewrite Hr. destruct (aget rid (m_repos m2)) as [r|]; [|cbn; congruence].
+    cbn [fst m_repos m_rid m_vid m_iid]. now rewrite ?Hr, ?Hi, ?Hv, ?Hd.
+  - unfold op_new_mutid.
+    destruct (aget rid (m_mut m1)) as [[c1 s1]|], (aget rid (m_mut m2)) as [[c2 s2]|];
+      cbn [fst m_repos m_rid m_vid m_iid]; congruence.
+Qed.
+
+Lemma inst_ok_step C m o : inst_ok C m -> inst_ok C (fst (pstep_v C m o)).
+Proof.
+  unfold inst_ok. intro H. destruct o; cbn [pstep_v pstep].
+  - unfold op_new_repo, new_uuid. cbn. exact H.
+  - unfold op_new_version. destruct (aget rid (m_repos m)) as [r|]; [|exact H].
+    destruct (aget parent (pr_nodes r)) as [pn|]; [|exact H].
+    destruct (negb (pn_locked pn)); [exact H|].
+    match goal with |- context [if ?c then (m, []) else _] => destruct c end; [exact H|]. cbn. exact H.
+  - unfold op_merge_v. destruct (merge_valid m rid parents); [|exact H]. unfold op_merge.
+    destruct parents as [|p0 [|p1 ps]]; [exact H|exact H|].
+    destruct (aget rid (m_repos m)) as [r|]; [|exact H]. unfold new_uuid. cbn [fst snd].
+    destruct (link_parents _ (m_vid m) (p0 :: p1 :: ps)) as [ns ok]. destruct ok; cbn; exact H.
+  - unfold op_commit. destruct (aget rid (m_repos m)) as [r|]; [|exact H].
+    destruct (aget v (pr_nodes r)) as [n|]; [|exact H]. destruct (pn_locked n); [exact H|]. cbn. exact H.
+  - unfold op_new_data. destruct (aget rid (m_repos m)) as [r|]; [|cbn; lia].
+    destruct (amem name (pr_data r)); cbn; lia.
+  - unfold op_delete_data. destruct (aget rid (m_repos m)) as [r|]; [|exact H].
+    destruct (negb (amem name (pr_data r))); [exact H|]. cbn. exact H.
+  - unfold op_delete_repo. destruct (aget rid (m_repos m)) as [r|]; [|exact H]. cbn. exact H.
+  - unfold op_new_mutid. destruct (aget rid (m_mut m)) as [[c s]|]; cbn; exact H.
+Qed.
+
+Lemma hstep_fst C m hc o : fst (fst (hstep C m hc o)) = fst (pstep_v C m o).
+Proof. now rewrite <- (hstep_mgr C m hc o). Qed.
+
+(* two runs of the same requests from states with the same repos and counters *)
+Lemma mcore_run C ops : forall m1 hc1 img1 m2 hc2 img2, mcore m1 = mcore m2 ->
+  mcore (fst (fst (hrun_img C m1 hc1 img1 ops))) = mcore (fst (fst (hrun_img C m2 hc2 img2 ops))).
+Proof.
+  induction ops as [|o r IH]; intros m1 hc1 img1 m2 hc2 img2 H; [exact H|]. cbn [hrun_img].
+  pose proof (mcore_step C m1 m2 o H) as H1. rewrite <- (hstep_fst C m1 hc1 o), <- (hstep_fst C m2 hc2 o) in H1.
+  destruct (hstep C m1 hc1 o) as [[a1 b1] w1]. destruct (hstep C m2 hc2 o) as [[a2 b2] w2]. now apply IH.
+Qed.
+
+Lemma inst_ok_run C ops : forall m hc img, inst_ok C m -> inst_ok C (fst (fst (hrun_img C m hc img ops))).
+Proof.
+  induction ops as [|o r IH]; intros m hc img H; [exact H|]. cbn [hrun_img].
+  pose proof (inst_ok_step C m o H) as H1. rewrite <- (hstep_fst C m hc o) in H1.
+  destruct (hstep C m hc o) as [[a1 b1] w1]. now apply IH.
+Qed.
+
+Lemma hrun_img_app C a : forall b m hc img,
+  hrun_img C m hc img (a ++ b) =
+  let '(m1, hc1, img1) := hrun_img C m hc img a in hrun_img C m1 hc1 img1 b.
+Proof.
+  induction a as [|o r IH]; intros b m hc img; [cbn; now destruct (hrun_img C m hc img b) as [[? ?] ?]|].
+  cbn [app hrun_img]. destruct (hstep C m hc o) as [[m1 hc1] ws]. apply IH.
+Qed.
+
+Lemma hgood_restart_core C m hc img : hgood m hc img -> inst_ok C m ->
+  exists mr hcr imgr, hrestart C img = Ok (mr, hcr, imgr) /\ hgood mr hcr imgr /\ mcore mr = mcore m /\ inst_ok C mr.
+Proof.
+  intros Hg Hi. destruct (hgood_restart C m hc img Hg) as (mr & hcr & imgr & Hr & [Ho _] & Hg').
+  exists mr, hcr, imgr. split; [exact Hr|]. split; [exact Hg'|].
+  destruct Hg as [Hp Hs _]. destruct (pinv_pwf _ _ Hp) as [_ Hok]. apply pinv_iff in Hp. destruct Hp as [_ _ _ Hids _ _].
+  unfold hrestart in Hr. destruct (recover C img) as [[mr0 wr0]| |] eqn:Er; try discriminate.
+  apply Ok_inj in Hr. injection Hr as -> _ _.
+  destruct (recover_core C img _ _ _ mr wr0 Hok Hids Hi Er) as (H1 & H2 & H3).
+  unfold pobserve in Ho. split; [unfold mcore; now rewrite <- Ho, H1, H2, H3|]. unfold inst_ok. now rewrite H3.
+Qed.
+
+(* run h1; restart; run h2; restart; ... run hn  is observably  run (h1 ++ h2 ++ ... ++ hn) *)
+Lemma segs_refine C segs : forall ma hca imga mb hcb imgb,
+  hgood ma hca imga -> inst_ok C ma -> hgood mb hcb imgb -> mcore ma = mcore mb ->
+  exists mf hcf imgf, hrun_segs C ma hca imga segs = Ok (mf, hcf, imgf) /\
+    hgood mf hcf imgf /\ inst_ok C mf /\
+    let '(m', hc', _) := hrun_img C mb hcb imgb (concat segs) in hobs_eq mf hcf m' hc'.
+Proof.
+  induction segs as [|ops rest IH]; intros ma hca imga mb hcb imgb Ga Ia Gb Hc.
+  - exists ma, hca, imga. split; [reflexivity|]. split; [exact Ga|]. split; [exact Ia|]. cbn [concat hrun_img].
+    destruct Ga as [_ _ Ha], Gb as [_ _ Hb]. apply heads_inv_obs; auto. unfold pobserve, mcore in *. congruence.
+  - pose proof (hgood_run C ops ma hca imga Ga) as Ga1. pose proof (hgood_run C ops mb hcb imgb Gb) as Gb1.
+    pose proof (mcore_run C ops ma hca imga mb hcb imgb Hc) as Hc1.
+    pose proof (inst_ok_run C ops ma hca imga Ia) as Ia1.
+    cbn [concat]. rewrite hrun_img_app.
+    destruct (hrun_img C mb hcb imgb ops) as [[mb1 hcb1] imgb1].
+    destruct rest as [|ops2 rest2].
+    + cbn [hrun_segs concat]. destruct (hrun_img C ma hca imga ops) as [[ma1 hca1] imga1]. cbn [fst] in *.
+      exists ma1, hca1, imga1. split; [reflexivity|]. split; [exact Ga1|]. split; [exact Ia1|].
+      cbn [hrun_img]. destruct Ga1 as [_ _ Ha], Gb1 as [_ _ Hb]. apply heads_inv_obs; auto.
+      unfold pobserve, mcore in *. congruence.
+    + change (hrun_segs C ma hca imga (ops :: ops2 :: rest2)) with
+        (let '(m1, hc1, img1) := hrun_img C ma hca imga ops in
+         match hrestart C img1 with
+         | Ok (mr, hcr, imgr) => hrun_segs C mr hcr imgr (ops2 :: rest2)
+         | Err => Err
+         | Panic => Panic
+         end).
+      destruct (hrun_img C ma hca imga ops) as [[ma1 hca1] imga1]. cbn [fst] in *.
+      destruct (hgood_restart_core C ma1 hca1 imga1 Ga1 Ia1) as (mr & hcr & imgr & Hr & Gr & Hcr & Ir).
+      rewrite Hr. apply IH; auto. congruence.
+Qed.
+
+Lemma segs_refine_from_init C segs :
+  exists mf hcf imgf,
+    hrun_segs C (init_mgr C) [] (apply_ws empty_image (init_writes C)) segs = Ok (mf, hcf, imgf) /\
+    let '(m', hc', _) := hrun_img C (init_mgr C) [] (apply_ws empty_image (init_writes C)) (concat segs) in
+    hobs_eq mf hcf m' hc'.
+Proof.
+  destruct (segs_refine C segs _ _ _ _ _ _ (hgood_init C)
+              ltac:(unfold inst_ok, init_mgr; cbn [m_iid]; destruct (1 <? c_inst_start C) eqn:E; [lia|apply N.ltb_ge in E; lia])
+              (hgood_init C) eq_refl) as (mf & hcf & imgf & H1 & _ & _ & H2).
+  exists mf, hcf, imgf. auto.
+Qed.
+
+Lemma segs_refine_same C segs m hc img : hgood m hc img -> inst_ok C m ->
+  exists mf hcf imgf, hrun_segs C m hc img segs = Ok (mf, hcf, imgf) /\
+    hgood mf hcf imgf /\ inst_ok C mf /\
+    let '(m', hc', _) := hrun_img C m hc img (concat segs) in hobs_eq mf hcf m' hc'.
+Proof. intros G I. now apply segs_refine. Qed.
+
+Lemma inst_ok_init C : inst_ok C (init_mgr C).
+Proof. unfold inst_ok, init_mgr. cbn [m_iid]. destruct (1 <? c_inst_start C) eqn:E; [lia|apply N.ltb_ge in E; lia]. Qed.
+
+(* three segments, two restarts, refused merges in between, evaluated *)
+Lemma segs_example :
+  let segs := [[PNewRepo 11; PCommit 1 1; PNewVersion 1 1 None 12; PNewVersion 1 1 (Some 7) 13; PMerge 1 [2; 3] 14];
+               [PCommit 1 2; PMerge 1 [2; 2] 15; PCommit 1 3; PMerge 1 [3; 2] 17];
+               [PNewVersion 1 2 (Some 8) 18; PNewData 1 5]] in
+  match hrun_segs r_conf (init_mgr r_conf) [] (apply_ws empty_image (init_writes r_conf)) segs with
+  | Ok (mf, hcf, _) =>
+    let '(m', hc', _) := hrun_img r_conf (init_mgr r_conf) [] (apply_ws empty_image (init_writes r_conf)) (concat segs) in
+    pobserve mf = pobserve m' /\ map (cached_head hcf 1) [0; 7; 8] = [Some 4; Some 3; Some 5] /\
+    map (cached_head hc' 1) [0; 7; 8] = [Some 4; Some 3; Some 5]
+  | _ => False
+  end.
+Proof. vm_compute. repeat split. Qed.
